@@ -21,7 +21,7 @@ pub fn exe() -> std::path::PathBuf {
 /// Run `msim <cmd> -` with `input` on stdin in a fresh process with exactly `env` as its
 /// environment and `cwd` as working directory.  CPU time and address space are capped so a
 /// runaway job cannot stall the batch.
-pub fn run_exec(cmd: &str, input: &str, env: &BTreeMap<String, String>, cwd: &str, extra_env: &[(&str, &str)]) -> ExecOut {
+fn configure(cmd: &str, env: &BTreeMap<String, String>, cwd: &str, extra_env: &[(&str, &str)]) -> Command {
     let mut c = Command::new(exe());
     c.arg(cmd).arg("-");
     c.env_clear();
@@ -34,8 +34,7 @@ pub fn run_exec(cmd: &str, input: &str, env: &BTreeMap<String, String>, cwd: &st
     if let Ok(v) = std::env::var("MSIM_STUB_DIR") {
         c.env("MSIM_STUB_DIR", v);
     }
-    let debug_block = std::env::var("MSIM_DEBUG_BLOCK").is_ok();
-    if debug_block {
+    if std::env::var("MSIM_DEBUG_BLOCK").is_ok() {
         c.env("MSIM_DEBUG_BLOCK", "1");
     }
     c.current_dir(if cwd.is_empty() { "/" } else { cwd });
@@ -53,6 +52,12 @@ pub fn run_exec(cmd: &str, input: &str, env: &BTreeMap<String, String>, cwd: &st
             Ok(())
         });
     }
+    c
+}
+
+pub fn run_exec(cmd: &str, input: &str, env: &BTreeMap<String, String>, cwd: &str, extra_env: &[(&str, &str)]) -> ExecOut {
+    let mut c = configure(cmd, env, cwd, extra_env);
+    let debug_block = std::env::var("MSIM_DEBUG_BLOCK").is_ok();
     let mut child = match c.spawn() {
         Ok(c) => c,
         Err(e) => {
@@ -152,4 +157,67 @@ pub fn scratch_base(tag: &str) -> String {
     let _ = std::fs::remove_dir_all(&p);
     std::fs::create_dir_all(&p).expect("scratch dir");
     p
+}
+
+/// A long-lived executor: one request line in, one reply line out, until it is closed or dies.
+/// Used for histories whose steps all run in ONE process of the code under test.
+pub struct Session {
+    child: std::process::Child,
+    stdin: Option<std::process::ChildStdin>,
+    rx: std::sync::mpsc::Receiver<String>,
+    reader: Option<std::thread::JoinHandle<()>>,
+}
+
+impl Session {
+    pub fn spawn(cmd: &str, env: &BTreeMap<String, String>, cwd: &str) -> Option<Session> {
+        let mut c = configure(cmd, env, cwd, &[]);
+        c.stderr(Stdio::null());
+        let mut child = c.spawn().ok()?;
+        let stdin = child.stdin.take();
+        let stdout = child.stdout.take()?;
+        let (tx, rx) = std::sync::mpsc::channel();
+        let reader = std::thread::spawn(move || {
+            use std::io::BufRead;
+            for line in std::io::BufReader::new(stdout).lines() {
+                match line {
+                    Ok(l) => {
+                        if tx.send(l).is_err() {
+                            break;
+                        }
+                    }
+                    Err(_) => break,
+                }
+            }
+        });
+        Some(Session { child, stdin, rx, reader: Some(reader) })
+    }
+
+    /// One request; `None` when the executor died or did not answer in time (it is killed then).
+    pub fn request(&mut self, line: &str) -> Option<String> {
+        let ok = match self.stdin.as_mut() {
+            Some(si) => si.write_all(line.as_bytes()).and_then(|_| si.write_all(b"\n")).and_then(|_| si.flush()).is_ok(),
+            None => false,
+        };
+        if !ok {
+            return None;
+        }
+        let limit = std::time::Duration::from_secs(std::env::var("MSIM_EXEC_WALL_S").ok().and_then(|v| v.parse().ok()).unwrap_or(900));
+        match self.rx.recv_timeout(limit) {
+            Ok(l) => Some(l),
+            Err(_) => {
+                let _ = self.child.kill();
+                None
+            }
+        }
+    }
+
+    /// Close the executor and return how it ended.
+    pub fn close(mut self) -> (Option<i32>, Option<i32>) {
+        drop(self.stdin.take());
+        let st = self.child.wait().ok();
+        if let Some(r) = self.reader.take() {
+            let _ = r.join();
+        }
+        (st.and_then(|s| s.code()), st.and_then(|s| s.signal()))
+    }
 }
